@@ -1012,6 +1012,14 @@ class awkward_transform:
                     # if the function returns a single array, wrap it in a tuple
                     if not isinstance(out_numpys, tuple):
                         out_numpys = (out_numpys,)
+                    # a non-array argument returned unchanged (e.g. a coordinate of a
+                    # single vector object) is broadcast to the length of the arrays
+                    out_numpys = tuple(
+                        numpy.full(layouts[0].data.shape, x)
+                        if getattr(x, "shape", ()) == ()
+                        else x
+                        for x in out_numpys
+                    )
                     # propagate parameters
                     out_params = parameters_factory(
                         tuple(map(operator.attrgetter("parameters"), layouts)),
